@@ -109,6 +109,12 @@ class RunTest:
                 # One or more caught exceptions, now trigger the test's
                 # reporting method for just one.
                 e = self._exceptions.pop()
+                # A KeyboardInterrupt (or other non-Exception) caught earlier
+                # is still re-raised when a later stage raised something else.
+                for caught in self._exceptions:
+                    if not isinstance(caught, Exception):
+                        e = caught
+                        break
                 for exc_class, handler in self.handlers:
                     if isinstance(e, exc_class):
                         handler(self.case, self.result, e)
